@@ -100,8 +100,33 @@ fn add_abnormal_part(xot: &mut Xot, e: Node, a: &ANode, style: AttrStyle, h: &mu
     Ok(())
 }
 
+/// Register junk prefixes, namespaces and names first ("a Xot that has been in use"): id tables that have
+/// passed 16 / 64 / 128 / 256 entries before the tree's own names arrive. Decided by the tree's hash so that a
+/// case stays reproducible; one tree in six.
+pub fn age_xot(xot: &mut Xot, a: &ANode) -> usize {
+    let h = a.structural_hash();
+    if h % 6 != 0 {
+        return 0;
+    }
+    let table: &[usize] = if crate::engine::legs_mode() { &[14, 16, 62, 63] } else { &[14, 15, 16, 17, 30, 61, 62, 63, 64, 65, 126, 127, 128, 200, 254, 255, 256, 300] };
+    let k = table[((h / 6) % table.len() as u64) as usize];
+    for i in 0..k {
+        let p = format!("zj{}", i);
+        xot.add_prefix(&p);
+        let ns = xot.add_namespace(&format!("urn:zj:{}", i));
+        xot.add_name_ns(&p, ns);
+        xot.add_name(&p);
+    }
+    k
+}
+
 /// Build `a` (document, element or leaf) as a new parentless tree.
 pub fn build(xot: &mut Xot, a: &ANode, route: Route, style: AttrStyle) -> Result<HTree, String> {
+    age_xot(xot, a);
+    build_rec(xot, a, route, style)
+}
+
+fn build_rec(xot: &mut Xot, a: &ANode, route: Route, style: AttrStyle) -> Result<HTree, String> {
     let node = new_leaf(xot, a);
     let mut h = HTree {
         node,
@@ -119,7 +144,7 @@ pub fn build(xot: &mut Xot, a: &ANode, route: Route, style: AttrStyle) -> Result
     match route {
         Route::AttrsLast | Route::DeclsChildrenAttrs => {
             for c in &a.children {
-                let hc = build(xot, c, route, style)?;
+                let hc = build_rec(xot, c, route, style)?;
                 xot.append(node, hc.node)
                     .map_err(|e| format!("append failed: {:?}", e))?;
                 h.children.push(hc);
@@ -137,7 +162,7 @@ pub fn build(xot: &mut Xot, a: &ANode, route: Route, style: AttrStyle) -> Result
         }
         Route::BottomUp => {
             for c in &a.children {
-                let hc = build(xot, c, route, style)?;
+                let hc = build_rec(xot, c, route, style)?;
                 xot.append(node, hc.node)
                     .map_err(|e| format!("append failed: {:?}", e))?;
                 h.children.push(hc);
@@ -145,7 +170,7 @@ pub fn build(xot: &mut Xot, a: &ANode, route: Route, style: AttrStyle) -> Result
         }
         Route::Prepend => {
             for c in a.children.iter().rev() {
-                let hc = build(xot, c, route, style)?;
+                let hc = build_rec(xot, c, route, style)?;
                 xot.prepend(node, hc.node)
                     .map_err(|e| format!("prepend failed: {:?}", e))?;
                 h.children.insert(0, hc);
@@ -154,7 +179,7 @@ pub fn build(xot: &mut Xot, a: &ANode, route: Route, style: AttrStyle) -> Result
         Route::InsertBefore => {
             let mut prev: Option<Node> = None;
             for c in a.children.iter().rev() {
-                let hc = build(xot, c, route, style)?;
+                let hc = build_rec(xot, c, route, style)?;
                 match prev {
                     None => xot
                         .append(node, hc.node)
